@@ -573,7 +573,7 @@ def run(ctx):
         # extraction cross-check on the two witnesses of the refuted theorems
         w1 = [[], [ev_tree(ev('exec', a=ok(1, 0))), ev_tree(ev('exec', a=ok(2, 0)))]]
         w2 = [[], [ev_tree(ev('exec', a=ok(1, 0)))] + [ev_tree(ev('poll', p1=http(429, 0)))] * 6]
-        sample = [(1700, w1), (1702, w1), (1700, w2), (1702, w2), (1701, w2)]
+        sample = [(1703, w1), (1702, w1), (1703, w2), (1702, w2), (1700, w2)]
         a = ctx.model.run(sample, jobs=1)
         b = ctx.model.vm_crosscheck(sample, "c17")
         ctx.count("vm_compute_crosscheck", len(sample))
